@@ -88,7 +88,7 @@ func ruleDBSchema(c *Ctx, prefix string) {
 		c.R.Fatalf("ANCHOR-UNRESOLVED: plugins/range")
 		return
 	}
-	var stmts []*sqlStmt
+	var stmts, others []*sqlStmt
 	for _, fn := range c.P.SrcFuncs() {
 		if fnPkgPath(fn) != pkg.Pkg.Path() {
 			continue
@@ -119,6 +119,8 @@ func ruleDBSchema(c *Ctx, prefix string) {
 						}
 						if st.Kind != "" {
 							stmts = append(stmts, st)
+						} else {
+							others = append(others, st)
 						}
 					}
 				}
@@ -131,7 +133,9 @@ func ruleDBSchema(c *Ctx, prefix string) {
 		case "create":
 			create = s
 		case "select":
-			sel = s
+			if sel == nil || len(s.Cols) > len(sel.Cols) {
+				sel = s // the loader's statement reads the whole row; narrower look-ups are not the restore path
+			}
 		case "insert":
 			ins = s
 		}
@@ -224,6 +228,21 @@ func ruleDBSchema(c *Ctx, prefix string) {
 				probs = append(probs, "the upsert's DO UPDATE SET list does not rewrite column "+cn+": a renewal leaves the stored "+cn+" stale")
 			} else if v != "excluded."+strings.ToLower(cn) {
 				probs = append(probs, "the upsert assigns column "+cn+" `"+v+"` instead of the new row's value (excluded."+cn+")")
+			}
+		}
+	}
+	// REPLACE conflict resolution deletes every row that collides on ANY uniqueness
+	// constraint, not only the row of the same key: a further UNIQUE column or index
+	// lets one client's save silently remove another client's binding
+	if strings.EqualFold(strings.Fields(im[1])[0], "replace") || policy == "replace" {
+		for _, cl := range splitCols(body) {
+			if regexp.MustCompile(`(?i)\bunique\b`).MatchString(cl) {
+				probs = append(probs, "column declared UNIQUE (`"+strings.TrimSpace(cl)+"`) while rows are saved with REPLACE conflict resolution: saving one client's lease deletes any other row with the same value")
+			}
+		}
+		for _, o := range others {
+			if m := regexp.MustCompile(`(?is)^\s*create\s+unique\s+index\s+(if\s+not\s+exists\s+)?(\w+)\s+on\s+(\w+)`).FindStringSubmatch(o.Text); m != nil && strings.EqualFold(m[3], im[4]) {
+				probs = append(probs, "unique index "+m[2]+" ("+c.P.InstrPos(o.Call)+") on a table whose rows are saved with REPLACE conflict resolution: saving one client's lease deletes any other client's row that collides on the index")
 			}
 		}
 	}
